@@ -85,6 +85,14 @@ class C03(common.Prop):
             {'s': '{[#P][#P].[#P][#P]}.{#P=[$]COC[$]}', 'legacy': True, 'aa': True, 'ctor': 'graph'},
             {'s': '{[#P][#P].[#P][#P]}.{#P=[>]CC[<]}', 'legacy': False, 'aa': True, 'ctor': 'dicts'},
             {'s': '{[#P][#P].[#P][#P]}.{#P=[$][#X][#Y][$]}', 'legacy': False, 'aa': False, 'ctor': 'graph'},
+            # the step of a LATER level, after a level that had a virtual node / order-0 edges / squashed beads
+            # (seed C03-11: node keys remembered from an earlier level name other nodes after the renumbering)
+            {'s': '{[#V].[#A][#B]}.{#A=[#P][#Q][>],#B=[<][#R][#S]}.{#P=CC[$a],#Q=[$a]CC[$b],#R=[$b]CO[$c],#S=[$c]CN}',
+             'legacy': True, 'aa': True, 'level': 1},
+            {'s': '{[#A][#B].[#V]}.{#A=[#P][#Q][>],#B=[<][#R][#S]}.{#P=CC[$a],#Q=[$a]CC[$b],#R=[$b]CO[$c],#S=[$c]CN}',
+             'legacy': False, 'aa': True, 'level': 1},
+            {'s': '{[#A].([#V])[#B]}.{#A=[#P]=[#Q][>],#B=[<][#R][#S]}.{#P=[#x][$a]=[$a],#Q=[$a]=[$a][#y][$b],#R=[$b][#x][$c],#S=[$c][#y]}',
+             'legacy': True, 'aa': False, 'level': 1},
         ]
 
     def generate(self, ctx, n):
@@ -100,7 +108,49 @@ class C03(common.Prop):
             frs = gens.rand_fragment_set(rng, names, all_atom=aa, max_desc=4, expect=expect, kinds=kinds, labels=labels)
             out.append({'s': base + '.' + frs, 'legacy': rng.random() < 0.6, 'aa': aa, 'written': expect,
                         'ctor': rng.choice(['string', 'string', 'string', 'graph', 'graph', 'dicts'])})
-        return out
+            if rng.random() < 0.12:
+                out.append(self._later_level(rng))
+        return out[:n]
+
+    @staticmethod
+    def _later_level(rng):
+        """a three-block string whose FIRST level has virtual nodes / order-0 edges at random places; the observed step
+        is the one of the second level (dedicated labelled pairs, so every base edge of that level must get its bonds)"""
+        k = rng.randint(2, 4)
+        blocks = ['B%d' % i for i in range(k)]
+        # level-1 fragments: chains of 2 beads, joined head to tail by uniquely labelled pairs
+        beads, l1 = [], []
+        for i, b in enumerate(blocks):
+            p, q = 'p%d' % i, 'q%d' % i
+            beads += [p, q]
+            left = '[<j%d]' % (i - 1) if i else ''
+            right = '[>j%d]' % i if i < k - 1 else ''
+            sym = rng.choice(['', '', '='])
+            l1.append('#%s=%s[#%s]%s[#%s]%s' % (b, left, p, sym, q, right))
+        # level-2 fragments, all-atom or coarse, dedicated labels per bead-bead edge
+        aa = rng.random() < 0.6
+        l2 = []
+        for i, b in enumerate(blocks):
+            p, q = 'p%d' % i, 'q%d' % i
+            o = 2 if '=[#%s]' % q in l1[i] else 1
+            inner = ''.join('[$i%d%s]' % (i, c) for c in 'ab'[:o])
+            a1, a2 = ('C', 'C') if aa else ('[#x]', '[#y]')
+            prev = '[$o%d]' % (i - 1) if i else ''
+            nxt = '[$o%d]' % i if i < k - 1 else ''
+            l2.append('#%s=%s%s%s' % (p, prev, a1, inner))
+            l2.append('#%s=%s%s%s%s' % (q, inner, a2, a1 if aa else '', nxt))
+        # level 0: the chain of blocks with virtual nodes sprinkled in
+        toks = []
+        for i, b in enumerate(blocks):
+            if i == 0 and rng.random() < 0.5:
+                toks.append('[#V].')                 # virtual node written first, order-0 edge to the first block
+            toks.append('[#%s]' % b)
+            if rng.random() < 0.4:
+                toks.append('.([#V])')               # virtual node as a branch behind a block
+        if rng.random() < 0.4:
+            toks.append('.[#W]')
+        s = '{%s}.{%s}.{%s}' % (''.join(toks), ','.join(l1), ','.join(l2))
+        return {'s': s, 'legacy': rng.random() < 0.7, 'aa': aa, 'level': 1, 'ctor': 'string'}
 
     def run_impl(self, case):
         from cgsmiles.resolve import MoleculeResolver
@@ -130,8 +180,14 @@ class C03(common.Prop):
             finally:
                 mol.__class__ = nx.Graph
         resolver.edges_from_bonding_descrpt = wrapped
+        level = case.get('level', 0)
         try:
-            resolver.resolve()
+            # the bond-creation step of resolution level `level` is observed (the recorder keeps the last call):
+            # state that survives from the levels before it must not change what the step does
+            for _ in range(level + 1):
+                rec.pop('edges', None)
+                rec.pop('bonds', None)
+                resolver.resolve()
         except Exception as exc:
             rec.setdefault('later_exc', type(exc).__name__)
         if 'edges' not in rec:
@@ -142,13 +198,14 @@ class C03(common.Prop):
         # the base graph as the string denotes it, read afresh (a constructor must not change its edge orders)
         try:
             from cgsmiles.read_cgsmiles import read_cgsmiles
-            fresh = read_cgsmiles(case['s'].split('.{', 1)[0])
-            out['written_edges'] = sorted([min(a, b), max(a, b), o] for a, b, o in fresh.edges(data='order'))
+            if level == 0:
+                fresh = read_cgsmiles(case['s'].split('.{', 1)[0])
+                out['written_edges'] = sorted([min(a, b), max(a, b), o] for a, b, o in fresh.edges(data='order'))
         except Exception:
             pass
         # what the fragment reader attached to the templates (clause "each bonded atom carried a descriptor")
         try:
-            fd = resolver.fragment_dicts[0]
+            fd = resolver.fragment_dicts[level]
             out['templates'] = {nm: {str(n): list(b) for n, b in nx.get_node_attributes(g, 'bonding').items()}
                                 for nm, g in fd.items()}
         except Exception:
